@@ -76,15 +76,14 @@ def is_late(r):
     return bool(r.get("late")) and r["kind"] == "resp"
 
 
-def in_model_domain(case):
-    """the model delivers a reply's segments at once; a body whose rest arrives after the next checkout is judged by the oracle only"""
-    return not any(is_late(r) for r in case["replies"])
-
-
 def enc_reply(r):
     # the model does not know which request a reply answers: it learns it when the request is sent
     if r["kind"] != "resp":
         return [KIND[r["kind"]]]
+    if r.get("late"):
+        # what is sent at once is `first` bytes; the rest (LATE_TAIL bytes) is held back until the next request arrives (model: SLate / IHold)
+        first = min(r["first"], 3)
+        return [0, 200, FRAMING["len"], first + LATE_TAIL, first, first, B(True), 4, B(False)]
     return [0, r["status"], FRAMING[r["framing"]], r["n"], r["first"], r["sent"], B(r["keep"]), STRAY[r["stray"]], B(r["eof_after"])]
 
 
@@ -403,6 +402,9 @@ def one_case(rng):
     k = rng.randint(2, 4)
     reqs = [{"head": rng.random() < 0.15, "preload": rng.random() < 0.2, "caller": rand_caller(rng)} for _ in range(k)]
     replies = [rand_reply(rng) if rng.random() < 0.8 else dict(PLAIN) for _ in range(2 * k + 2)] + [dict(PLAIN)] * (4 * k + 4)
+    for r in replies[:2 * k + 2]:
+        if r["kind"] == "resp" and rng.random() < 0.06:
+            r["late"] = True          # the rest of this body arrives only with the next request on the connection
     if any(q["caller"][0] == "read1" for q in reqs):
         for r in replies:          # read1 is modelled for Content-Length framing only
             if r.get("framing") in ("chunked", "eof"):
